@@ -134,6 +134,46 @@ func (e *Engine) initStubs() {
 		return tb.Bool(types.Identical(iv.T, e.runtimeErrorType()))
 	})
 	e.stub(V+"Self", func(e *Engine, st *State, th *Thread, c *callCtx) Value { return tb.Int64(int64(th.ID)) })
+	e.stub(V+"RunTimer", func(e *Engine, st *State, th *Thread, c *callCtx) Value {
+		// fire one armed timer now, at an arbitrary instant not before its deadline, and run its callback to completion
+		// on the calling thread (sequential timing harnesses)
+		for i := range st.Timers {
+			if st.Timers[i].Armed {
+				st.Timers = append([]TimerRec(nil), st.Timers...)
+				tm := &st.Timers[i]
+				tm.Armed = false
+				tm.Fires++
+				st.TotalFires++
+				clk := e.tick(st)
+				st.PC = tb.And(st.PC, tb.SLe(tm.Deadline, clk))
+				if c.instr == nil {
+					panic(&Unsupported{"deferred RunTimer"})
+				}
+				th.FireNo = st.TotalFires
+				st.FiresChecked++
+				e.pushFrame(st, th, e.vrt.Func("runTimerCallback"), nil, []Value{tm.F}, false)
+				c.pushed = true
+				return nil
+			}
+		}
+		return tb.False
+	})
+	e.stub(V+"endTimerCallback", func(e *Engine, st *State, th *Thread, c *callCtx) Value {
+		th.FireNo = 0
+		return nil
+	})
+	e.stub(V+"FiresChecked", func(e *Engine, st *State, th *Thread, c *callCtx) Value { return tb.Int64(int64(st.FiresChecked)) })
+	e.stub(V+"Fires", func(e *Engine, st *State, th *Thread, c *callCtx) Value { return tb.Int64(int64(st.TotalFires)) })
+	e.stub(V+"FireNo", func(e *Engine, st *State, th *Thread, c *callCtx) Value { return tb.Int64(int64(th.FireNo)) })
+	e.stub(V+"TimersArmed", func(e *Engine, st *State, th *Thread, c *callCtx) Value {
+		n := 0
+		for _, tm := range st.Timers {
+			if tm.Armed {
+				n++
+			}
+		}
+		return tb.Int64(int64(n))
+	})
 	e.stub(V+"Symbolic", func(e *Engine, st *State, th *Thread, c *callCtx) Value { return tb.True })
 	e.stub(V+"Cut", func(e *Engine, st *State, th *Thread, c *callCtx) Value {
 		label, _ := c.args[0].(StrV).constString()
